@@ -384,6 +384,8 @@ func build(b *Base, faults []Site) *built {
 				o.FailBefore = f.Name
 			case "pp-after", "pp-after-subst":
 				o.FailAfter = f.Name
+				// (the observer rejects the substitute as such: the registered object itself would pass)
+				o.FailAfterSubstituteOnly = f.Kind == "pp-after-subst"
 			case "pp-inst":
 				o.FailInst = f.Name
 			case "pp-early":
